@@ -99,6 +99,37 @@ def code_table(code):
     return t
 
 
+# --------------------------------------------------------------------------- reusable OS threads
+# a run needs 4-6 threads and lasts a few milliseconds: creating them afresh costs a quarter of that
+class _Worker:
+    def __init__(self):
+        self.sem = _real_threading.Semaphore(0)
+        self.job = None
+        _real_threading.Thread(target=self._loop, name="sched-worker", daemon=True).start()
+
+    def _loop(self):
+        while True:
+            self.sem.acquire()
+            job, self.job = self.job, None
+            try:
+                job()
+            finally:
+                _idle.append(self)
+
+
+_idle = []
+os.register_at_fork(after_in_child=_idle.clear)      # threads do not survive fork()
+
+
+def _run_in_worker(job):
+    try:
+        w = _idle.pop()
+    except IndexError:
+        w = _Worker()
+    w.job = job
+    w.sem.release()
+
+
 # --------------------------------------------------------------------------- thread state
 RUNNABLE, BLOCKED, FINISHED = "runnable", "blocked", "finished"
 
@@ -329,12 +360,10 @@ class Scheduler:
         t = TState(len(self.ts), name, sthread)
         self.ts.append(t)
         sthread._ts = t
-        real = _real_threading.Thread(target=self._boot, args=(t,), name="sched-" + name, daemon=True)
-        t.real = real
         self.live += 1
         with self._mx:
             self._real_alive += 1
-        real.start()
+        _run_in_worker(lambda: self._boot(t))
         return t
 
     def _boot(self, t):
